@@ -64,3 +64,18 @@ pub(crate) use helpers::*;
 #[allow(unused_imports)]
 pub(crate) use helpers_32::*;
 pub(crate) use sanity::SideMetadataSanity;
+
+/// Hooks for the external verification harness.
+#[cfg(feature = "mmtk_verif")]
+pub mod verif_hooks {
+    use super::SideMetadataSpec;
+    use crate::util::Address;
+    /// See `helpers::meta_byte_lshift`.
+    pub fn meta_byte_lshift(spec: &SideMetadataSpec, data_addr: Address) -> u8 {
+        super::helpers::meta_byte_lshift(spec, data_addr)
+    }
+    /// See `helpers::metadata_address_range_size`.
+    pub fn metadata_address_range_size(spec: &SideMetadataSpec) -> usize {
+        super::helpers::metadata_address_range_size(spec)
+    }
+}
